@@ -87,15 +87,59 @@ func c13NameCase(out *zzverif.Out, s string) {
 	}
 }
 
+// c13ModelPartValid: does types/model accept s as a part of this kind (public API only)?
+func c13ModelPartValid(kind int, s string) bool {
+	n := model.Name{Host: "h", Namespace: "n", Model: "m", Tag: "t"}
+	switch kind {
+	case 0:
+		n.Host = s
+	case 1:
+		n.Namespace = s
+	case 2:
+		n.Model = s
+	default:
+		n.Tag = s
+	}
+	return n.IsValid()
+}
+
 func c13PartCase(out *zzverif.Out, kind int, s string) {
 	op := fmt.Sprintf("vpart N %d %s", kind, zzverif.Hex([]byte(s)))
 	ok := isValidPart(kind, s)
 	out.Case(op, zzverif.C13Bool(ok))
 	out.Count("cases")
+	// cross-parser agreement at part level: a non-empty part is accepted by both packages or by neither
+	if s != "" && ok != c13ModelPartValid(kind, s) {
+		out.L2("part-cross-disagree", op, fmt.Sprintf("names.isValidPart=%v but types/model says %v", ok, !ok))
+	}
 	if ok && s != "" {
 		out.Count("part_accepted")
 		if s == "." || s == ".." || strings.ContainsAny(s, "/\\\x00") || s[0] == '.' {
 			out.L2("part-unsafe", op, "accepted part is not a safe path component")
+		}
+	}
+}
+
+
+// c13UTF8Sample calls f with valid UTF-8 encodings (2, 3 and 4 bytes) of code points chosen per LOW BYTE class:
+// for every value 0..255 of cp&0xFF and every encoded length, the smallest such code point and a seeded random one
+// (surrogates skipped).  A decoder that truncates a rune to a byte is sensitive to exactly this class.
+func c13UTF8Sample(r *zzverif.Rng, f func(ch string, low, size int)) {
+	ranges := [][2]int{{0x80, 0x7FF}, {0x800, 0xFFFF}, {0x10000, 0x10FFFF}}
+	for low := 0; low < 256; low++ {
+		for ri, rg := range ranges {
+			first := rg[0] - rg[0]%256 + low
+			if first < rg[0] {
+				first += 256
+			}
+			span := (rg[1] - first) / 256
+			cps := []int{first, first + 256*r.Intn(span+1)}
+			for _, cp := range cps {
+				if cp >= 0xD800 && cp <= 0xDFFF {
+					cp += 0x800
+				}
+				f(string(rune(cp)), low, ri+2)
+			}
 		}
 	}
 }
@@ -129,9 +173,30 @@ func TestVerifC13(t *testing.T) {
 			}
 		}
 	}
+	// witnesses derived by the check from a failed regenerated-table Tie (see vlib/checks/c13.py)
+	if b, err := os.ReadFile(os.Getenv("VERIF_WITNESS")); err == nil {
+		for _, l := range strings.Split(string(b), "\n") {
+			if l = strings.TrimSpace(l); l != "" && !strings.HasPrefix(l, "#") {
+				c13Replay(out, l)
+				out.Count("tie_witness")
+			}
+		}
+	}
 	zzverif.C13Exhaustive(zzverif.C13Alphabet, zzverif.EnvInt("VERIF_EXH", 3), func(s string) {
 		c13NameCase(out, s)
 		out.Count("exhaustive_name")
+	})
+	// valid multi-byte characters, per low-byte class, as a part (alone / after / before / inside ASCII) and inside names
+	c13UTF8Sample(root.Fork(), func(ch string, low, size int) {
+		for kind := 0; kind < 4; kind++ {
+			c13PartCase(out, kind, ch)
+			c13PartCase(out, kind, "a"+ch)
+			c13PartCase(out, kind, ch+"a")
+		}
+		c13NameCase(out, "h/n/"+ch+":t")
+		c13NameCase(out, "h"+ch+"/n/m:t"+ch)
+		c13NameCase(out, ch)
+		out.Count(fmt.Sprintf("utf8_sample_%dbyte", size))
 	})
 	zzverif.C13LimitParts(root.Fork(), func(kind int, s string) {
 		if kind < 4 {
@@ -181,17 +246,36 @@ func TestVerifC13Table(t *testing.T) {
 			}
 		}
 		product := 1
-		for a := 0; a < 256; a++ {
-			for b := 0; b < 256; b++ {
-				if isValidPart(kind, string([]byte{byte(a), byte(b)})) != (inFirst[a] && inRest[b]) {
-					product = 0
+		// probes beyond 1 and 2 bytes: the acceptance of ANY string must be "first byte in the first set and every
+		// later byte in the rest set"; strings for which the real function says otherwise are emitted as `odd`
+		// witnesses (and clear the product flag)
+		var odd []string
+		probe := func(s string) {
+			want := len(s) > 0 && inFirst[s[0]]
+			for i := 1; i < len(s) && want; i++ {
+				want = inRest[s[i]]
+			}
+			if len(s) > 0 && isValidPart(kind, s) != want {
+				product = 0
+				if len(odd) < 6 {
+					odd = append(odd, zzverif.Hex([]byte(s)))
 				}
 			}
 		}
-		for b := 0; b < 256; b++ {
-			if isValidPart(kind, string([]byte{'a', 'a', byte(b)})) != inRest[b] || isValidPart(kind, string([]byte{'a', byte(b), 'a'})) != inRest[b] {
-				product = 0
+		for a := 0; a < 256; a++ {
+			for b := 0; b < 256; b++ {
+				probe(string([]byte{byte(a), byte(b)}))
 			}
+		}
+		c13UTF8Sample(zzverif.NewRng(7), func(ch string, low, size int) {
+			probe(ch)
+			probe("a" + ch)
+			probe(ch + "a")
+			probe("a" + ch + "a")
+		})
+		for b := 0; b < 256; b++ {
+			probe(string([]byte{'a', 'a', byte(b)}))
+			probe(string([]byte{'a', byte(b), 'a'}))
 		}
 		lo, hi, contiguous := -1, -1, 1
 		for n := 0; n <= 1200; n++ {
@@ -208,5 +292,6 @@ func TestVerifC13Table(t *testing.T) {
 		fmt.Fprintf(f, "N %d first %s\n", kind, strings.Join(first, " "))
 		fmt.Fprintf(f, "N %d rest %s\n", kind, strings.Join(rest, " "))
 		fmt.Fprintf(f, "N %d len %d %d %d %d\n", kind, lo, hi, contiguous, product)
+		fmt.Fprintf(f, "N %d odd %s\n", kind, strings.Join(odd, " "))
 	}
 }
